@@ -49,10 +49,9 @@ type c1node struct{ own, full string }
 
 func c1errClass(b *adt.Bottom) string {
 	switch b.Code {
-	case adt.IncompleteError:
+	case adt.IncompleteError, adt.CycleError:
+		// Bottom.IsIncomplete(): a reference cycle is an incomplete error
 		return "incomplete"
-	case adt.CycleError:
-		return "cycle"
 	case adt.StructuralCycleError:
 		return "structural_cycle"
 	default:
@@ -225,6 +224,10 @@ func (k *c1canon) disjunction(x *adt.Disjunction) string {
 	}
 	vs := maximal(func(dj) bool { return true })
 	dsel := maximal(func(d dj) bool { return d.def })
+	if len(vs) == 1 && (len(dsel) == 0 || (len(dsel) == 1 && dsel[0] == vs[0])) {
+		// a disjunction with a single (maximal) disjunct denotes that disjunct
+		return vs[0]
+	}
 	s := "|(" + strings.Join(vs, ",")
 	if len(dsel) > 0 {
 		s += ";*" + strings.Join(dsel, ",*")
@@ -360,7 +363,7 @@ func (k *c1canon) vertex(v *adt.Vertex, sb *strings.Builder) {
 	// resolved default of a disjunction
 	if d, ok := v.BaseValue.(*adt.Disjunction); ok && d.NumDefaults > 0 {
 		dv := v.Default()
-		if dv != v {
+		if dv != v && strings.HasSuffix(sb.String(), ")") {
 			var ds strings.Builder
 			k.untracked(func() { k.vertex(dv, &ds) })
 			k.w(sb, "=>"+ds.String())
@@ -389,9 +392,12 @@ func (k *c1canon) patterns(v *adt.Vertex, sb *strings.Builder) {
 	k.untracked(func() {
 		for _, p := range v.PatternConstraints.Pairs {
 			k.nPattern++
+			// The constraint vertex is a TEMPLATE (its conjuncts evaluated without a field);
+			// finalizing it standalone yields closedness errors that no field ever sees, in
+			// an order-dependent way. Only the pattern and the KIND of the constraint are
+			// part of the form; what a pattern does to a field shows at that field.
 			var s strings.Builder
-			s.WriteString("[" + k.value(p.Pattern) + "]:")
-			k.vertex(p.Constraint, &s)
+			s.WriteString("[" + k.value(p.Pattern) + "]")
 			parts = append(parts, s.String())
 		}
 	})
